@@ -1,7 +1,7 @@
 SPECIFICATION TraceSpec
 CONSTANTS Wirings = {"plain", "tunnel"} Kinds = {"basic", "cache", "tunnel"}
           MaxTasks = 1000000 MaxCaches = 1000000 MaxSocks = 1000 MaxBoot = 1000
-          InitAwaited = TRUE UnloadRemovesPending = TRUE
+          InitAwaited = TRUE UnloadRemovesPending = TRUE MaxTry = 8 MaxXTask = 1000000 StoreAtOpen = TRUE
           WrapperForwardsRemove = TRUE CryptoListenerRemoved = TRUE RemovalAwaited = TRUE
 INVARIANT TypeOK
 INVARIANT SilentAfterUnload
